@@ -23,6 +23,9 @@ def run(ctx):
     asmcheck.run_suite(ctx, "cell-frames", [framed(s, "cell") for s in sample + every])
     from harness.props import c04
     asmcheck.run_suite(ctx, "shared-label-mixed-width", c04.shared_label_cases(rnd, 10000 if thorough else 800))
+    # a label (and label +- constant) whose address sits on a width boundary, in every fixed-width operand position: the bytes emitted for the statement are as many
+    # as the space the listing reserves for it, and the statements after it are where the listing says (a field rendered wider than the field's size shifts the image)
+    asmcheck.run_suite(ctx, "label-boundary", c04.label_boundary_cases(rnd, 20000 if thorough else 1000))
     # S3: code -> spec, random programs; every statement followed by a labelled one
     n_small, n_long = (60000, 4000) if thorough else (5000, 300)
     cases = []
